@@ -67,6 +67,11 @@ def sign_matched(q):
     fy, fx = np.mgrid[0:shape[0], 0:shape[1]]
     disk = ((fy - p[0]) ** 2 + (fx - p[1]) ** 2 <= r * r).astype(np.float64)
     frame = (np.exp(q["amp"] * disk) - 1 + q["bg"]).astype(np.float32)
+    if q.get("int_levels"):
+        # the same flat disk as detector counts in an integer dtype: two levels (log intensity = log(hi - lo + 1) * disk), the
+        # levels may lie anywhere in the range of the dtype
+        dt_, lo_, hi_ = q["int_levels"]
+        frame = np.where(disk > 0, hi_, lo_).astype(dt_)
     msgs = []
     if not np.array_equal(tmpl, tmpl[::-1, ::-1]) and size % 2 == 1:
         msgs.append("harness: template not point-symmetric")
@@ -341,6 +346,15 @@ def search(ctx, boost=1, focus=()):
     # hard-edged disks with sign-matched user templates (the family of theorem flat_disk_exact), other seeds than in corr()
     for k in range(n // 4):
         q = gen_sign_matched(rng, k)
+        if k % 3 == 1:
+            dt_ = ("int16", "int8", "int32", "uint16", "uint8", "int64")[(k // 3) % 6]
+            info_ = np.iinfo(dt_)
+            lo_ = int(info_.min) + int(rng.integers(0, 20))
+            hi_ = int(info_.max) - int(rng.integers(0, 20)) if (k // 18) % 2 == 0 else lo_ + int(rng.integers(2, 100))
+            if dt_ == "int64":
+                lo_, hi_ = -2 ** 40, 2 ** 40
+            q["int_levels"] = [dt_, lo_, hi_]
+            ctx.count("sign_matched_integer_levels_" + dt_)
         ctx.oracle_case("sign_matched", q, run_case("sign_matched", q),
                         nontrivial=(q["shape"][0] != q["shape"][1] or q["size"] % 2 == 0))
         ctx.count("sign_matched_" + q["weights"])
